@@ -364,6 +364,15 @@ class FreeEnergy(InterpolatableFunction):
                         ode.t,
                         tol=rTol,
                     )
+                    # Just before a spinodal the minimum is so shallow that the
+                    # minimiser can roll over the barrier into another phase, which
+                    # then passes the stability test below. The integrated point is
+                    # accurate to rTol, so a large correction means the branch was left.
+                    fieldScale = (
+                        self.effectivePotential.derivativeSettings.fieldValueVariationScale
+                    )
+                    if np.any(np.abs(phaset[0] - ode.y) > 0.1 * np.abs(fieldScale)):
+                        break
                     ode.y = phaset[0]
                 if spinodalEvent(ode.t, ode.y) <= 0:
                     break
